@@ -13,8 +13,11 @@
  *                                    inner loops, interleaved with non-hopping and no-dedicated-channel calls
  *                                    for the same FN: the result must be a function of (HSN, MAIO, MA, FN) only
  *
- * The mobile allocation is N *distinct* channel numbers (ma[i] = 512 + (29 i mod 64), shuffled so
- * that index and value never coincide), so the index chosen is observable in the ARFCN returned.
+ * The mobile allocation is N *distinct* 16-bit channel numbers in a shuffled order (see ma_val():
+ * six "flavours" incl. entries with the ARFCN_PCS / ARFCN_UPLINK flag bits and 0xffff/0x8000/0x7fff),
+ * so the index chosen is observable in the ARFCN returned and the full 16-bit value is compared.
+ * `full` and `hist` rotate through the flavours; `red`, `hsn0` and `vec` (default) use flavour 0, which
+ * is the MA the Python side uses.
  */
 #include <stdint.h>
 #include <stdio.h>
@@ -84,8 +87,28 @@ static unsigned spec_mai(unsigned hsn, unsigned maio, unsigned n, uint32_t fn)
 }
 
 /* --- the firmware under test ----------------------------------------------------------------- */
-static unsigned ma_base = 512;
-static uint16_t ma_val(unsigned i) { return ma_base + ((i * 29u + 7u) % 64u); }
+/* MA contents ("flavour"): N distinct 16-bit channel numbers in a shuffled order.  The firmware's
+ * ARFCNs carry flag bits (ARFCN_PCS 0x8000, ARFCN_UPLINK 0x4000, ARFCN_FLAG_MASK 0xf000), so the
+ * selected entry must come back with all 16 bits intact:
+ *   0: 512+p   1: 700+p   2: ARFCN_PCS|(512+p)   3: ARFCN_UPLINK|(512+p)   4: both flags|(512+p)
+ *   5: boundary values 0xffff 0x8000 0x7fff 0x4000 0xc000 0x0000 0x8001 0xfffe, then 0xf100+p
+ * (p = 29 i + 7 mod 64).  No flavour contains 0xdead (poison beyond N), 0xbeef (serving cell set by
+ * configure()) or 900..999 (serving cell of the history pass), so a fallback is always visible. */
+#define NFLAVOUR 6
+static unsigned ma_flavour;
+static uint16_t ma_val(unsigned i)
+{
+	static const uint16_t special[8] = { 0xffff, 0x8000, 0x7fff, 0x4000, 0xc000, 0x0000, 0x8001, 0xfffe };
+	unsigned p = (i * 29u + 7u) % 64u;
+	switch (ma_flavour) {
+	case 0: return 512 + p;
+	case 1: return 700 + p;
+	case 2: return ARFCN_PCS | (512 + p);
+	case 3: return ARFCN_UPLINK | (512 + p);
+	case 4: return ARFCN_PCS | ARFCN_UPLINK | (512 + p);
+	default: return i < 8 ? special[i] : 0xf100 + p;
+	}
+}
 
 static void configure(unsigned hsn, unsigned maio, unsigned n)
 {
@@ -128,7 +151,8 @@ static int fw_index(uint16_t arfcn, unsigned n)
 	return -1;
 }
 
-static unsigned long nviol, nev, nwrap, ndirect, nnontriv, ncyc;
+static unsigned long nviol, nev, nwrap, ndirect, nnontriv, ncyc, nflav[NFLAVOUR];
+static uint64_t seenf[NFLAVOUR][65];	/* the same per MA contents */
 static uint64_t seen[65];	/* seen[N] bit MAI: distinct (N, MAI) outcomes produced by the firmware */
 
 static void tally(unsigned hsn, unsigned maio, unsigned n, uint32_t fn, unsigned want, uint16_t got)
@@ -144,11 +168,12 @@ static void tally(unsigned hsn, unsigned maio, unsigned n, uint32_t fn, unsigned
 		ndirect++;
 	if (got == ma_val(want)) {
 		seen[n] |= 1ull << want;
+		seenf[ma_flavour][n] |= 1ull << want;
 		return;
 	}
 	if (nviol++ < 20)
-		printf("V hsn=%u maio=%u n=%u fn=%u fw=%u fwidx=%d spec=%u wrapped=%d\n",
-		       hsn, maio, n, fn, got, fw_index(got, n), want, wrapped);
+		printf("V hsn=%u maio=%u n=%u fn=%u fw=%u fwidx=%d spec=%u wrapped=%d flavour=%u want=%u\n",
+		       hsn, maio, n, fn, got, fw_index(got, n), want, wrapped, ma_flavour, ma_val(want));
 }
 
 static void check(unsigned hsn, unsigned maio, unsigned n, uint32_t fn)
@@ -197,9 +222,13 @@ static void summary(void)
 	for (n = 1; n <= 64; n++)
 		distinct += (unsigned)__builtin_popcountll(seen[n]);
 	printf("{\"evaluations\": %lu, \"nontrivial\": %lu, \"direct\": %lu, \"wrapped\": %lu, \"cyclic\": %lu, "
-	       "\"violations\": %lu, \"distinct_n_mai\": %u, \"seen\": [", nev, nnontriv, ndirect, nwrap, ncyc, nviol, distinct);
+	       "\"violations\": %lu, \"distinct_n_mai\": %u, \"flavours\": [%lu, %lu, %lu, %lu, %lu, %lu], \"seen\": [",
+	       nev, nnontriv, ndirect, nwrap, ncyc, nviol, distinct, nflav[0], nflav[1], nflav[2], nflav[3], nflav[4], nflav[5]);
 	for (n = 1; n <= 64; n++)
 		printf("%s\"%llx\"", n > 1 ? ", " : "", (unsigned long long)seen[n]);
+	printf("], \"seen_by_flavour\": [");
+	for (n = 0; n < NFLAVOUR * 64; n++)
+		printf("%s\"%llx\"", n ? ", " : "", (unsigned long long)seenf[n / 64][n % 64 + 1]);
 	printf("]}\n");
 }
 
@@ -217,8 +246,10 @@ int main(int argc, char **argv)
 				for (k = 0; k < nm; k++) {
 					unsigned i, p = spec_pow_nbin(n);
 					/* progress marker: a sanitizer death is attributable to this configuration */
-					printf("P hsn=%u n=%u maio=%u\n", hsn, n, maio[k]);
+					ma_flavour = (hsn + n + k) % NFLAVOUR;
+					printf("P hsn=%u n=%u maio=%u flavour=%u\n", hsn, n, maio[k], ma_flavour);
 					fflush(stdout);
+					nflav[ma_flavour] += NFULL;
 					configure(hsn, maio[k], n);
 					for (i = 0; i < NFULL; i++) {
 						unsigned want = spec_mai_t(hsn, maio[k], n, p, full_fn[i],
@@ -276,7 +307,7 @@ int main(int argc, char **argv)
 		static const uint32_t fix[] = { 0, 1, 2, 25, 26, 50, 51, 52, 1325, 1326, 1327, 84863, 84864, 84865,
 			65535, 65536, 65537, 1048575, 1048576, HYPER / 2, HYPER - 1327, HYPER - 1326, HYPER - 2, HYPER - 1 };
 		enum { NFIX = sizeof(fix) / sizeof(fix[0]), NSPREAD = 300 };
-		static const unsigned bases[2] = { 512, 700 };
+		unsigned long hflav[NFLAVOUR] = { 0 };
 		unsigned lo = atoi(argv[2]), hi = atoi(argv[3]), idx, b;
 		unsigned long nhop = 0, nagain = 0, nnonhop = 0, nnone = 0, step = 0;
 		if (hi > NFIX + NSPREAD) hi = NFIX + NSPREAD;
@@ -296,14 +327,16 @@ int main(int argc, char **argv)
 							uint16_t got;
 							/* consecutive calls: same FN, parameters differ (MA contents change
 							 * fastest: the same MAI must give a different ARFCN) */
-							ma_base = bases[b];
+							/* two MA contents per configuration, pairs (0,1) (2,3) (4,5) in rotation */
+							ma_flavour = 2 * ((hsn + n + k) % 3) + b;
+							hflav[ma_flavour]++;
 							configure(hsn, maio[k], n);
 							want = spec_mai(hsn, maio[k], n, fn);
 							got = fw_arfcn_t(&t);
 							nhop++;
 							if (got != ma_val(want) && nviol++ < 20)
-								printf("H kind=hop idx=%u fn=%u hsn=%u maio=%u n=%u base=%u fw=%u fwidx=%d spec=%u want=%u\n",
-								       idx, fn, hsn, maio[k], n, ma_base, got, fw_index(got, n), want, ma_val(want));
+								printf("H kind=hop idx=%u fn=%u hsn=%u maio=%u n=%u flavour=%u fw=%u fwidx=%d spec=%u want=%u\n",
+								       idx, fn, hsn, maio[k], n, ma_flavour, got, fw_index(got, n), want, ma_val(want));
 							if (step++ % 5)
 								continue;
 							/* same FN, non-hopping dedicated channel (h0 shares storage with h1) */
@@ -312,41 +345,49 @@ int main(int argc, char **argv)
 							got = fw_arfcn_t(&t);
 							nnonhop++;
 							if (got != 100 + step % 800 && nviol++ < 20)
-								printf("H kind=nonhop idx=%u fn=%u hsn=%u maio=%u n=%u base=%u fw=%u fwidx=-1 spec=0 want=%lu\n",
-								       idx, fn, hsn, maio[k], n, ma_base, got, 100 + step % 800);
+								printf("H kind=nonhop idx=%u fn=%u hsn=%u maio=%u n=%u flavour=%u fw=%u fwidx=-1 spec=0 want=%lu\n",
+								       idx, fn, hsn, maio[k], n, ma_flavour, got, 100 + step % 800);
 							/* same FN, no dedicated channel: serving cell */
 							l1s.dedicated.type = GSM_DCHAN_NONE;
 							l1s.serving_cell.arfcn = 900 + step % 100;
 							got = fw_arfcn_t(&t);
 							nnone++;
 							if (got != 900 + step % 100 && nviol++ < 20)
-								printf("H kind=none idx=%u fn=%u hsn=%u maio=%u n=%u base=%u fw=%u fwidx=-1 spec=0 want=%lu\n",
-								       idx, fn, hsn, maio[k], n, ma_base, got, 900 + step % 100);
+								printf("H kind=none idx=%u fn=%u hsn=%u maio=%u n=%u flavour=%u fw=%u fwidx=-1 spec=0 want=%lu\n",
+								       idx, fn, hsn, maio[k], n, ma_flavour, got, 900 + step % 100);
 							/* and back to the hopping channel, same FN: same answer as before */
 							configure(hsn, maio[k], n);
 							got = fw_arfcn_t(&t);
 							nagain++;
 							if (got != ma_val(want) && nviol++ < 20)
-								printf("H kind=again idx=%u fn=%u hsn=%u maio=%u n=%u base=%u fw=%u fwidx=%d spec=%u want=%u\n",
-								       idx, fn, hsn, maio[k], n, ma_base, got, fw_index(got, n), want, ma_val(want));
+								printf("H kind=again idx=%u fn=%u hsn=%u maio=%u n=%u flavour=%u fw=%u fwidx=%d spec=%u want=%u\n",
+								       idx, fn, hsn, maio[k], n, ma_flavour, got, fw_index(got, n), want, ma_val(want));
 						}
 				}
 		}
 		printf("{\"hist_fns\": %u, \"hist_hopping\": %lu, \"hist_hopping_repeat\": %lu, \"hist_nonhopping\": %lu, "
-		       "\"hist_serving_cell\": %lu, \"violations\": %lu}\n", hi > lo ? hi - lo : 0, nhop, nagain, nnonhop, nnone, nviol);
+		       "\"hist_serving_cell\": %lu, \"hist_flavours\": [%lu, %lu, %lu, %lu, %lu, %lu], \"violations\": %lu}\n",
+		       hi > lo ? hi - lo : 0, nhop, nagain, nnonhop, nnone,
+		       hflav[0], hflav[1], hflav[2], hflav[3], hflav[4], hflav[5], nviol);
 		return nviol ? 1 : 0;
 	}
 	if (argc >= 2 && !strcmp(argv[1], "vec")) {
 		unsigned m;
 		unsigned long f;
-		while (scanf("%u %u %u %lu", &hsn, &m, &n, &f) == 4) {
+		char line[128];
+		while (fgets(line, sizeof(line), stdin)) {
 			uint16_t a;
-			if (n < 1 || n > 64 || f >= HYPER) return 2;
-			printf("case hsn=%u maio=%u n=%u fn=%lu\n", hsn, m, n, f);
+			unsigned fl = 0, sp;
+			if (sscanf(line, "%u %u %u %lu %u", &hsn, &m, &n, &f, &fl) < 4)
+				break;
+			if (n < 1 || n > 64 || f >= HYPER || fl >= NFLAVOUR) return 2;
+			printf("case hsn=%u maio=%u n=%u fn=%lu flavour=%u\n", hsn, m, n, f, fl);
 			fflush(stdout);
+			ma_flavour = fl;
 			configure(hsn, m, n);
 			a = fw_arfcn((uint32_t)f);
-			printf("fw=%u fwidx=%d spec=%u\n", a, fw_index(a, n), spec_mai(hsn, m, n, (uint32_t)f));
+			sp = spec_mai(hsn, m, n, (uint32_t)f);
+			printf("fw=%u fwidx=%d spec=%u want=%u\n", a, fw_index(a, n), sp, ma_val(sp));
 		}
 		return 0;
 	}
